@@ -2,6 +2,8 @@
 from core import *
 
 RUNNER_CQ = {"source": "cq_run.cpp", "name": "cq_run", "defines": [], "sanitize": True}
+# HeterEventQueue under the controlled scheduler: its own copy of enqueue / process / processOne / processIf / clearEvents / emptyQueue / wait / waitFor
+RUNNER_HQ = {"source": "cq_run.cpp", "name": "cq_run_heter", "defines": ["W_HETER=1"], "sanitize": True, "lacks": ["tk", "pk", "pu", "don", "dof"]}
 
 
 def mc_cfg(threads, scen, defects=(), invariants=("Ledger", "OnePlace", "NoLostWakeup", "NoDeadlock", "ProducerOrder")):
@@ -36,7 +38,7 @@ def c06(tier, seed):
     if not quick:
         models.append({"module": "ConcQueueMC", "tag": "3threads", "cfg": mc_cfg([1, 2, 3], "Scen3"), "heap": "16g"})
     stress_sc = [{"scenario": s} for s in ["nq,nq|pa,pa", "nq,nq,nq|pi,pa", "nq,nq|tk|po,po", "nq,nq|cl|pa", "nq,nq,nq,nq|pu,pa", "nq|nq,tk|pa,pk", "nq,nq,nq|po,pi|pa"]]
-    return {"models": models, "runner": RUNNER_CQ, "trace_module": "TraceCQ", "scenarios": scen, "corpus": [CORPUS_PB],
+    return {"models": models, "runner": RUNNER_CQ, "trace_module": "TraceCQ", "scenarios": scen, "corpus": [CORPUS_PB], "extra_runners": [RUNNER_HQ],
             "stress_runners": STRESS_CQ, "stress_scenarios": stress_sc,
             "rule": "ConcQueue.tla model-checked over all interleavings of the scenario sets; on the real EventQueue each scenario (producers x consumers "
                     "process/processOne/processIf/processUntil/takeEvent/peekEvent/clearEvents) is explored by depth-first schedule enumeration with a "
@@ -58,7 +60,7 @@ def c07(tier, seed):
             + [{"scenario": s, "bound": 2, "max": 12000 if quick else 200000, "rand": 1500 if quick else 20000} for s in sc3b])
     models = [{"module": "ConcQueueMC", "tag": "wakeup", "cfg": mc_cfg([1, 2], "W2")},
               {"module": "ConcQueueMC", "tag": "2threads", "cfg": mc_cfg([1, 2], "Scen2")}]
-    return {"models": models, "runner": RUNNER_CQ, "trace_module": "TraceCQ", "scenarios": scen, "corpus": [CORPUS_D5],
+    return {"models": models, "runner": RUNNER_CQ, "trace_module": "TraceCQ", "scenarios": scen, "corpus": [CORPUS_D5], "extra_runners": [RUNNER_HQ],
             "rule": "ConcQueue.tla (predicate under the mutex, atomic unlock+sleep, notify_one, DisableQueueNotify ctor/dtor steps) model-checked with the "
                     "NoLostWakeup invariant; with the D5 defect switched on TLC prints the lost wake-up schedule, which is replayed on the real code; "
                     "waiter/producer/DisableQueueNotify scenarios explored on the real EventQueue under the controlled scheduler (dfs with preemption "
@@ -71,6 +73,9 @@ def c11(tier, seed):
     quick = tier == "quick"
     sc = ["nq,pa|eq", "nq,po|eq,eq", "nq,nq,pa|eq", "nq,tk|eq", "nq,cl|eq", "nq,pa|wf", "nq,po,po|eq,eq", "nq,nq,po|eq", "nq,po|wf", "nq,tk|wf"]
     sc3 = ["nq|pa|eq", "nq,nq|po,po|eq,eq", "nq|tk|eq", "nq,pa|nq|eq", "nq|pa|wf"]
+    # two processing calls that overlap without nesting (the one that began first ends first) while somebody asks (seed S51)
+    sc += ["nq,nq,po,eq|po", "nq,pa,eq|nq,pa", "nq,nq,po,wf|po"]
+    sc3 += ["nq,nq|po,eq|po", "nq,nq,nq|po|pi,eq"]
     scen = [{"scenario": s, "bound": 3} for s in sc] + [{"scenario": s, "bound": 2, "max": 6000 if quick else 150000} for s in sc3]
     models = [{"module": "ConcQueueMC", "tag": "2threads", "cfg": mc_cfg([1, 2], "Scen2")},
               {"module": "ConcQueueMC", "tag": "waitfor-2threads", "cfg": mc_cfg([1, 2], "WF2")}]
@@ -78,7 +83,7 @@ def c11(tier, seed):
         models.append({"module": "ConcQueueMC", "tag": "3threads", "cfg": mc_cfg([1, 2, 3], "Scen3"), "heap": "16g"})
         models.append({"module": "ConcQueueMC", "tag": "waitfor-3threads", "cfg": mc_cfg([1, 2, 3], "WF3"), "heap": "16g"})
     stress_sc = [{"scenario": s} for s in ["nq,pa|eq,eq", "nq,nq,po,po|eq,eq", "nq|pa|eq", "nq,tk|eq"]]
-    return {"models": models, "runner": RUNNER_CQ, "trace_module": "TraceCQ", "scenarios": scen, "corpus": [CORPUS_EO],
+    return {"models": models, "runner": RUNNER_CQ, "trace_module": "TraceCQ", "scenarios": scen, "corpus": [CORPUS_EO], "extra_runners": [RUNNER_HQ],
             "stress_runners": STRESS_CQ, "stress_scenarios": stress_sc,
             "rule": "ConcQueue.tla with emptyQueue as two reads and the history variable 'enqueues finished before the call began'; observer scenarios "
                     "(emptyQueue / waitFor time-out against enqueue + process/processOne/takeEvent/clearEvents) explored on the real EventQueue with "
